@@ -56,12 +56,13 @@ class Oracle:
 class C20(Prop):
     id = "C20"
     props = "C20_Props"
-    coq_files = ("Base", "C20_Consts", "C20_Model", "C20_Spec", "C20_Proofs", "C20_Proofs2", "C20_Names", "C20_Props")
+    coq_files = ("Base", "C20_Consts", "C20_Model", "C20_Spec", "C20_Proofs", "C20_Proofs2", "C20_Names", "C20_Pair", "C20_Props")
     models = ("C20_Model",)
     packages = {"cmp": PKG, "tr": "internal/tracer", "rs": "internal/app/referenceserver",
                 "rc": "internal/app/referenceclient", "int": "internal"}
     kinds = {"c20.hist": "cmp", "c20.enum": "cmp", "c20.names": "cmp", "c20.tracer": "tr", "c20.check": "rs",
              "c20.server": "rs", "c20.client": "rc", "c20.raw": "int",
+             "c20.pair": "cmp", "c20.trpair": "tr",
              "c20.trhist": "tr", "c20.rawrt": "int", "c20.live": "rs", "c20.clive": "rc", "c20.cstream": "rc"}
     consts = ("cmp", "tr", "rs", "rc", "int")
     go_timeout = 1500
@@ -77,7 +78,13 @@ class C20(Prop):
             "history of length <= 4 over {Reset, Write, Write(empty), Close} followed by decoding every closed destination on the "
             "reused decompressor; random pool-protocol histories of 10-40 steps with payloads {empty, 1 byte, text, 300 random "
             "bytes, 64 KiB zeros} and three ways of presenting a source (*bytes.Buffer, plain reader, one byte per Read). "
-            "c20.trhist: the same histories on the decompressor tracer.GetDecompressor(name) hands out. Sources are classified by "
+            "c20.trhist: the same histories on the decompressor tracer.GetDecompressor(name) hands out. "
+            "c20.pair / c20.trpair: TWO compressors and TWO decompressors obtained from the same constructor (GetCompressor / "
+            "GetDecompressor, the New* constructors the reference peers register, tracer.GetDecompressor by name), two histories "
+            "(every pair of decompressor histories of length <= 2 over {Reset(valid), ReadAll, one Read, Close} with different "
+            "payloads, every interleaving; random longer ones with corrupted sources and compressor sessions) run one operation at "
+            "a time in a given interleaving; compared with the pair machine of the model (instances_independent: each result is "
+            "that of the history alone). Sources are classified by "
             "a fresh third-party reader in a first pass (a malformed source that decodes differently when read in pieces is not a "
             "case). Compared per step (C20_Model.obs_step, the projection theorem library_independent speaks about): ok / err / "
             "crash and 'delivered what a fresh reader decodes' (ONE Read: a prefix of it, io.EOF not before its end); compressed "
@@ -129,7 +136,7 @@ class C20(Prop):
 
     # ------------------------------------------------------------------
     def nontrivial(self, case, res):
-        if case[0] in ("c20.hist", "c20.trhist", "c20.live", "c20.clive", "c20.cstream", "c20.rawrt"):
+        if case[0] in ("c20.hist", "c20.trhist", "c20.pair", "c20.trpair", "c20.live", "c20.clive", "c20.cstream", "c20.rawrt"):
             return "(#6f6b 1)" in res
         return True
 
@@ -137,6 +144,9 @@ class C20(Prop):
         if case[0] in ("c20.hist", "c20.trhist"):
             return ("compressor/decompressor history: the real instance (impl) and the proved wrapper model (model) differ in "
                     "ok/err/crash or in 'decoded equals what a fresh reader decodes' at some step")
+        if case[0] in ("c20.pair", "c20.trpair"):
+            return ("two instances obtained from the same constructor, their histories interleaved: what a user observes of its "
+                    "instance (impl) is not what its history gives on an instance of its own (model: instances are independent)")
         if case[0] in ("c20.live", "c20.clive", "c20.cstream"):
             return ("live sequence through connect-go's pools (reference server / reference client): a valid message did not "
                     "succeed or did not decode to what was sent ((ok 0)), possibly after a corrupted one, or something panicked")
@@ -234,6 +244,48 @@ class C20(Prop):
             for _ in range(300 if quick else 3000):
                 h = [rng.choice(letters) for _ in range(rng.randint(3, 5))]
                 yield ["c20.trhist", a, rng.choice((2, 3)), [alpha[c] for c in h]]
+
+        # ---- A2. two instances from the same constructor, histories interleaved ----------------------
+        # every place that hands out instances: GetCompressor/GetDecompressor (ctor 0), the New* constructors that the
+        # reference peers register with connect (1), tracer.GetDecompressor by name (2, 3)
+        def interleavings(na, nb):
+            for pos in itertools.combinations(range(na + nb), na):
+                yield [0 if i in pos else 1 for i in range(na + nb)]
+
+        for a in ALGS:
+            la = {"G": lit(a, 0, comp[(a, TEXT)]), "R": [5], "C": [7], "q": [8, 1]}
+            lb = {"Y": lit(a, 0, comp[(a, b"a")]), "R": [5], "C": [7]}
+            bad = pick(a, lambda c, y: c in (0, 2))
+            places = [("c20.pair", 0)] + ([("c20.pair", 1)] if a >= 3 else []) + [("c20.trpair", 2), ("c20.trpair", 3)]
+            hs_a = [h for n in (1, 2) for h in itertools.product(sorted(la), repeat=n)]
+            hs_b = [h for n in (1, 2) for h in itertools.product(sorted(lb), repeat=n)]
+            for kind_, ctor in places:
+                for ha in hs_a:
+                    for hb in hs_b:
+                        scheds = list(interleavings(len(ha), len(hb)))
+                        if quick and (kind_, ctor) != ("c20.trpair", 2) and len(scheds) > 2:
+                            scheds = rng.sample(scheds, 2)
+                        for sc in scheds:
+                            yield [kind_, a, ctor, [la[c] for c in ha], [lb[c] for c in hb], sc]
+                # the shape two overlapping users produce, spelled out: A.Reset x, B.Reset y, A.Read, B.Read (+ Close, reuse)
+                yield [kind_, a, ctor, [la["G"], [5], [7], la["G"], [5]], [lb["Y"], [5], [7], lb["Y"], [5]], [0, 1, 0, 1, 0, 1, 0, 1, 0, 1]]
+                yield [kind_, a, ctor, [la["G"], [5]], [lb["Y"], [5]], [0, 1, 1, 0]]
+                # compressor sessions on both, each decoded on the user's own decompressor
+                sess_a = [[0, 1], [1, TEXT], [2], [3, 1, 0], [5]]
+                sess_b = [[0, 1], [1, b"a"], [1, rnd], [2], [3, 1, 0], [5]]
+                for _ in range(6 if quick else 60):
+                    sc = [0] * len(sess_a) + [1] * len(sess_b)
+                    rng.shuffle(sc)
+                    yield [kind_, a, ctor, sess_a, sess_b, sc]
+                # random longer ones, corrupted sources included
+                pool_a = list(la.values()) + ([lit(a, 0, bad)] if bad not in (None, b"") else []) + [lit(a, 0, comp[(a, b"")])]
+                pool_b = list(lb.values()) + ([lit(a, 0, bad)] if bad not in (None, b"") else []) + [lit(a, 0, comp[(a, rnd)])]
+                for _ in range(60 if quick else 1000):
+                    ha = [rng.choice(pool_a) for _ in range(rng.randint(2, 5))]
+                    hb = [rng.choice(pool_b) for _ in range(rng.randint(2, 5))]
+                    sc = [0] * len(ha) + [1] * len(hb)
+                    rng.shuffle(sc)
+                    yield [kind_, a, ctor, ha, hb, sc]
 
         # ---- B. a corrupted message before a valid one ----------------------------------------------
         for a in ALGS:
